@@ -382,7 +382,7 @@ func isMutation(kind string) bool {
 // compareState compares the whole observable tree, a set of queries in two spellings, and
 // the snapshots handed out earlier.
 func (h *histChecker) compareState(i int, op FsOp, r *Rand) *Failure {
-	got, clause, msg := WalkFS(h.root)
+	got, clause, msg := WalkFSLimit(h.root, h.model.WalkLimit())
 	if clause != "" {
 		return h.fail(clause, "walk", msg, i, op)
 	}
